@@ -79,15 +79,13 @@ func c06NameOf(fsm *FileSystem, e *directoryEntry) string {
 func c06RRDirCE(root bool) {
 	vp.Unwind(300)
 	vp.AllocCap(2600)
-	N := 160
+	// name lengths concrete (they fix the layout of the device), name bytes and attributes arbitrary
 	var kids []*finalizeFileInfo
-	f1, _, n1 := c06RRFile("a", N)
-	vp.Assume(n1 >= 132)
+	f1, _, _ := c06RRFileN("a", 150, 150)
 	f1.shortname = "AAAAAAA0"
 	kids = append(kids, f1)
 	if !root {
-		f2, _, n2 := c06RRFile("b", N)
-		vp.Assume(n2 >= 132)
+		f2, _, _ := c06RRFileN("b", 132, 132)
 		f2.shortname = "AAAAAAA1"
 		kids = append(kids, f2)
 	}
@@ -115,4 +113,125 @@ func c06RRDirCE(root bool) {
 func VP_C06_rr_dir_root_longname() { c06RRDirCE(true) }
 func VP_C06_rr_dir_two_longnames() { c06RRDirCE(false) }
 
-var _ = fmt.Sprintf
+// c06RefLayout: ECMA-119 6.8.1.1: records are laid out one after the other, a record that would
+// cross a logical block boundary starts at the next block, the rest of the block is zero.
+// A record that ends exactly at the boundary may stay (eager=false) or be moved as well
+// (eager=true, what go-diskfs does; wasteful but valid). Returns the directory's data length.
+func c06RefLayout(recLens []int, bs int, eager bool) (size int) {
+	for _, l := range recLens {
+		room := bs - size%bs
+		if eager {
+			size = vp.IteInt(l >= room, size+room, size)
+		} else {
+			size = vp.IteInt(l > room, size+room, size)
+		}
+		size += l
+	}
+	return size
+}
+
+// c06WalkDir: independent walk over directory bytes: every record lies inside one block, gaps
+// are zero up to the next block; returns the number of records and the end of the last one.
+func c06WalkDir(b []byte, bs int) (count, end int) {
+	i := 0
+	for i < len(b) {
+		l := int(b[i])
+		if l == 0 {
+			for j := i; j < len(b) && j/bs == i/bs; j++ {
+				vp.Assert(b[j] == 0, "unused rest of a block is zero")
+			}
+			i = (i/bs + 1) * bs
+			continue
+		}
+		vp.Assert(i%bs+l <= bs, "a directory record does not cross a block boundary")
+		vp.Assert(l >= 34, "record has at least the fixed part and a 1-byte identifier")
+		vp.Assert(33+int(b[i+32]) <= l, "identifier lies inside the record")
+		count++
+		i += l
+		end = i
+	}
+	return count, end
+}
+
+func c06RRKids(ns []int) []*finalizeFileInfo {
+	var kids []*finalizeFileInfo
+	for i, n := range ns {
+		f, _, _ := c06RRFileN(fmt.Sprintf("k%d", i), n, n)
+		f.shortname = fmt.Sprintf("AAAAAAA%d", i)
+		kids = append(kids, f)
+	}
+	return kids
+}
+
+// VP_C06_rr_dir_size: Rock Ridge root directory with six 254-byte records and two records of
+// arbitrary size (name lengths na, nb in 1..131): the data length computed by
+// calculateDirectorySize equals the reference layout (entriesToBytes for the same directory is
+// compared with it in VP_C06_rr_root_*, where the structure is concrete).
+func VP_C06_rr_dir_size() {
+	vp.Unwind(300)
+	vp.AllocCap(4200)
+	kids := c06RRKids([]int{131, 131, 131, 131, 131, 131})
+	fa, _, na := c06RRFile("a", 131)
+	fa.shortname = "AAAAAAAA"
+	fb, _, nb := c06RRFile("b", 131)
+	fb.shortname = "AAAAAAAB"
+	kids = append(kids, fa, fb)
+	fsm := c06RRFS()
+	root := &finalizeFileInfo{path: ".", name: "\x00", shortname: "\x00", isDir: true, isRoot: true, depth: 1,
+		mode: os.ModeDir | 0o755, modTime: c06Time(), accessTime: c06Time(), changeTime: c06Time(), location: 18, nlink: 2, children: kids}
+	for _, k := range kids {
+		k.parent = root
+	}
+	size, ce, err := root.calculateDirectorySize(fsm)
+	vp.Assert(err == nil, "size calculated")
+	vp.Assert(ce == 1, "one continuation area (ER of the root's self entry)")
+	la := 118 + 5 + na
+	la += la % 2
+	lb := 118 + 5 + nb
+	lb += lb % 2
+	lens := []int{140, 104, 254, 254, 254, 254, 254, 254, la, lb}
+	refA := c06RefLayout(lens, 2048, false)
+	refB := c06RefLayout(lens, 2048, true)
+	vp.Assert(vp.IteU8(size == refA, 1, 0)|vp.IteU8(size == refB, 1, 0) == 1, "directory data length follows the reference layout")
+	blocks := calculateBlocks(int64(size), 2048)
+	vp.Assert(int64(blocks)*2048 >= int64(size), "reserved blocks cover the data length")
+	vp.Assert((int64(blocks)-1)*2048 < int64(size), "no block more than needed is reserved")
+	vp.Assert(size%2048 != 0, "a record is never left ending exactly at a block boundary (entriesToBytes relies on it when padding)")
+	vp.Cover("sizes compared")
+}
+
+// c06RRRootRT: Rock Ridge root directory whose records end 2 bytes before / exactly at / 2 bytes
+// after the end of the first block (structure concrete, names and attributes arbitrary): written
+// like Finalize does and read back: SUSP and Rock Ridge are detected from the root's "." entry
+// (its ER record lives in the continuation area) and every entry comes back.
+func c06RRRootRT(last int) {
+	vp.Unwind(300)
+	kids := c06RRKids([]int{131, 131, 131, 131, 131, 131, 17, last})
+	dir, fsm, dev, size, blocks, p := c06RRDir(true, kids, 2048)
+	count, end := c06WalkDir(p[0], 2048)
+	vp.Assert(count == 2+len(kids), "independent walk finds every record")
+	vp.Assert(end == size, "data length = end of the last record")
+	vp.Assert(len(p[0]) == int(blocks)*2048, "directory bytes fill exactly the blocks reserved for the directory")
+	vp.Assert(int(blocks) == (size+2047)/2048, "blocks reserved = ceil(data length / block size)")
+	vp.Cover("root directory written")
+	rootDE := &directoryEntry{location: dir.location, size: uint32(size), isSubdirectory: true, isSelf: true}
+	enabled, _, handlers, err := detectSUSP(rootDE, dev, 2048)
+	vp.Assert(err == nil, "root entry parsed")
+	vp.Assert(enabled, "SUSP detected (SP record in the root's self entry)")
+	vp.Assert(len(handlers) == 1, "Rock Ridge detected (ER record in the continuation area)")
+	got, err := c06ReadDir(fsm, dir.location, size)
+	vp.Assert(err == nil, "directory parsed")
+	vp.Assert(len(got) == 2+len(kids), "every entry is read back")
+	for i, k := range kids {
+		if i < len(got)-2 {
+			vp.Assert(c06NameOf(fsm, got[2+i]) == k.name, "Rock Ridge name of each entry preserved")
+			vp.Assert(got[2+i].location == k.location, "extent of each entry preserved")
+			vp.Assert(got[2+i].size == uint32(k.size), "size of each entry preserved")
+		}
+	}
+	vp.Cover("root directory read back")
+}
+
+func VP_C06_rr_root_below() { c06RRRootRT(15) } // 2046 bytes
+func VP_C06_rr_root_exact() { c06RRRootRT(17) } // the last record would end exactly at 2048
+func VP_C06_rr_root_above() { c06RRRootRT(19) } // last record moves to the second block
